@@ -329,8 +329,8 @@ func (l *Lexer) readNumber(ch byte) (token.Type, string) {
 	// Fractional part
 	if l.peekChar() == '.' {
 		if dotSeen {
-			// Stop if we see another dot
-			return t, string(l.input[pos : l.pos-1])
+			// Stop if we see another dot (not consumed; everything read so far is the number)
+			return t, string(l.input[pos:l.pos])
 		}
 		t = token.FLOAT
 		l.pos++
